@@ -6,7 +6,7 @@
    about its retry loop and its hash pin is read from the Go syntax tree on every run
    (Gen/Follow.v) and enters the follow theorems through [src]. *)
 From Coq Require Import ZArith List Bool Lia Sorted.
-From DV Require Import Model.Sync Proofs.SyncProofs Gen.Follow.
+From DV Require Import Model.Sync Proofs.SyncProofs Gen.Follow Gen.Consts.
 Import ListNotations.
 Open Scope Z_scope.
 
@@ -236,6 +236,40 @@ Proof.
 Qed.
 Print Assumptions C10_renewal_converges.
 
+(* The same with Run's clock, for the expiry factor the source has (Gen/Consts.v): the node is
+   behind and a sync request arrives at EVERY period (what Handler.run does). A request that finds
+   a Sync in flight and not yet overdue does nothing - in particular it does not refresh the
+   progress time -, so a Sync blocked on a silent stream is cancelled at the first request later
+   than factor periods after its last progress. With ARBITRARY peers in the attempts before (silent
+   ones included), the attempt that reaches an honest peer through non-stalling ones is started
+   within 1 + (factor+1) * (number of earlier attempts) periods, and the store then holds upTo. *)
+Theorem C10_ticks_converge :
+  forall vfy chained bk (chain : Z -> beacon),
+  (forall r, b_round (chain r) = r) ->
+  (forall r, 1 <= r -> vfy (chain r) = true) ->
+  (chained = true -> forall r, 1 <= r -> b_prev (chain r) = b_sig (chain (r - 1))) ->
+  (forall b, vfy b = true -> 1 <= b_round b) ->
+  (forall b, vfy b = true -> b_sig b = b_sig (chain (b_round b))) ->
+  forall upTo (fails : list (list peer)) pre h post rest st (n : nat),
+  Forall quiet pre -> honest chain 1 upTo h -> cinv chain st -> hd st < upTo -> 0 < upTo ->
+  (1 + length fails * (Z.to_nat sync_expiry_factor + 1) <= n)%nat ->
+  let s := run_ticks vfy chained bk SkAppend sync_expiry_factor upTo n 0
+             (mkTk st false 0 [] [] (fails ++ (pre ++ h :: post) :: rest)) in
+  hd (tk_st s) = upTo /\ cinv chain (tk_st s).
+Proof.
+  intros vfy chained bk chain L1 L2 L3 L4 L5 upTo fails pre h post rest st n Hq Hh Hc Hlt Hpos Hn.
+  assert (Htol : Forall (tolerated vfy chained SkAppend) pre).
+  { apply Forall_forall. intros p Hp. apply quiet_tolerated_append.
+    rewrite Forall_forall in Hq. apply Hq. exact Hp. }
+  assert (Hf : 0 <= sync_expiry_factor) by (vm_compute; discriminate).
+  destruct (ticks_converge vfy chained bk chain L1 L2 L3 L4 L5 sync_expiry_factor upTo Hf Hpos
+              fails pre h post rest Htol Hh 0%nat
+              (mkTk st false 0 [] [] (fails ++ (pre ++ h :: post) :: rest)) 0 n Hc Hlt eq_refl
+              ltac:(simpl; discriminate) Hn) as [A B].
+  simpl. auto.
+Qed.
+Print Assumptions C10_ticks_converge.
+
 (* ---- 3. check and repair ---- *)
 
 (* CheckPastBeacons(upTo) returns exactly the rounds 1 <= r <= min(upTo, head) that cannot be
@@ -437,6 +471,17 @@ Proof.
   split; [unfold cinv, wf, hd; simpl; repeat split; lia|].
   split; [unfold hd; simpl; lia|]. vm_compute. repeat split.
 Qed.
+
+(* one request per period, the first Sync blocked on a silent peer: with factor 2 it is replaced
+   at the 4th request (not before), and the honest peer of the second attempt finishes *)
+Example C10_nonvacuous_ticks :
+  let att := [[staller; xhonest true 6]; [closer; xhonest true 6]] in
+  let run := fun n => run_ticks (xvfy true) true BkOverwrite SkAppend sync_expiry_factor 4 n 0
+                        (mkTk (g0 true) false 0 [] [] att) in
+  (tk_inflight (run 3%nat) = true /\ hd (tk_st (run 3%nat)) = 0) /\
+  (tk_inflight (run 4%nat) = false /\ hd (tk_st (run 4%nat)) = 4) /\
+  hd (tk_st (run 9%nat)) = 4.
+Proof. vm_compute. repeat split. Qed.
 
 (* check and repair on a store with planted corruption: round 2 missing, round 4 invalid *)
 Definition planted : store :=
